@@ -213,6 +213,7 @@ func (m *M) ctxCancelled(p *path, a Addr, depth int) *smt.Term {
 			name := fmt.Sprintf("env!%d!%s@%d.%d%s!%d", m.curStep, fr.ID, fr.Blk, fr.Idx, loopsSig(fr.Loops), int(a))
 			b := c.Var(name, 0)
 			m.Nondet[name] = b
+			m.EnvLog = append(m.EnvLog, EnvRec{Step: m.curStep, Ctx: a, G: c.And(p.g, armed, b, c.Not(own))})
 			own = c.Or(own, c.And(armed, b))
 			m.memSet(p, a, VBool{own})
 			m.record(p, a, true, false, nil)
@@ -337,6 +338,17 @@ func (m *M) callVisible(p *path, fr *Frame, ci ssa.CallInstruction, d *DeferRec)
 		// In a program that never has a second thread a lock operation cannot interact with
 		// anybody: it stays inside the macro-step (self-deadlock is raised by the intrinsic).
 		return !m.Single
+	case "(*sync.Mutex).Unlock", "(*sync.RWMutex).Unlock":
+		// Unlock is a left-mover only with respect to Lock; a TryLock observes whether the
+		// mutex is held, so on mutexes that are ever TryLock'ed the Unlock is a step boundary
+		// (a critical section can then be seen "in progress" by a TryLock)
+		if m.Single {
+			return false
+		}
+		if a, ok := singleAddr(arg0()); ok {
+			return m.tryMutex[m.cellName(a)]
+		}
+		return false
 	}
 	if strings.HasSuffix(fnPkg(fn), "/vrt") && (fn.Name() == "Atomic" || fn.Name() == "Advance") {
 		return true
